@@ -63,6 +63,19 @@ IMPL_VOCAB = Raw('''
             |id: u64| SEntry { handle: self.request_data@[id].abort_handle.id() },
         )
     }
+    /// `#[derive(Default)]`: every field's `Default` -- the empty map and `DelayQueue::new()`. There is no source text to
+    /// extract for a derived impl (A-derive); that this state satisfies the table invariant is lemma_default_wf below.
+    #[verifier::external_body]
+    pub fn default() -> (r: Self)
+        ensures r.request_data@ == Map::<u64, RequestData>::empty(), r.deadlines@ == Map::<delay_queue::Key, delay_queue::Entry>::empty(),
+    { unimplemented!() }
+    /// the induction base of the table invariant
+    pub proof fn lemma_default_wf(&self)
+        requires self.request_data@ == Map::<u64, RequestData>::empty(), self.deadlines@ == Map::<delay_queue::Key, delay_queue::Entry>::empty(),
+        ensures self.wf(), self@ =~= Map::<u64, SEntry>::empty(), self.timers() =~= Map::<delay_queue::Key, delay_queue::Entry>::empty(),
+    {
+        broadcast use vstd::std_specs::hash::group_hash_axioms;
+    }
     pub open spec fn timers(&self) -> Map<delay_queue::Key, delay_queue::Entry> { self.deadlines@ }
     pub open spec fn timers_reg(&self) -> bool { self.deadlines.reg() }
     pub open spec fn key_of(&self, id: u64) -> delay_queue::Key { self.request_data@[id].deadline_key }
